@@ -403,7 +403,7 @@ fn case(rng: &mut Rng, ctx: &mut Ctx) {
     }
     if let Ok(v) = std::env::var("VERIF_DBG_PIPE") {
         let x: Vec<usize> = v.split(',').map(|t| t.parse().unwrap()).collect();
-        sc.pipe_cfg = PipeCfg { max_read: x[0], max_write: x[1], pend_num: x[2] as u64, pend_den: 4, capacity: x[3] };
+        sc.pipe_cfg = PipeCfg { max_read: x[0], max_write: x[1], pend_num: x[2] as u64, pend_den: 4, capacity: x[3], flush_gated: x.get(4).copied().unwrap_or(0) != 0 };
     }
     if let Ok(v) = std::env::var("VERIF_DBG_WINDOWS") {
         let x: Vec<u32> = v.split(',').map(|t| t.parse().unwrap()).collect();
